@@ -43,6 +43,13 @@ Proof. unfold pow20. intros Hx. lia. Qed.
 Lemma succ_arith_gen x y : x mod pow20 = y mod pow20 -> (x + 1) mod pow20 = (y + 1) mod pow20.
 Proof. unfold pow20. intros Hx. lia. Qed.
 
+Lemma shift_arith x b nb o d : x mod pow20 = (b + o) mod pow20 -> nb mod pow20 = (b + d) mod pow20 -> d <= o ->
+  x mod pow20 = (nb + (o - d)) mod pow20.
+Proof. unfold pow20. intros Hx Hn Hle. lia. Qed.
+
+Lemma shift_arith2 b nb d k : nb mod pow20 = (b + d) mod pow20 -> (nb + k) mod pow20 = (b + (d + k)) mod pow20.
+Proof. unfold pow20. intros Hn. lia. Qed.
+
 (* from here on `mod` by the (variable) window size is opaque to lia *)
 Ltac Zify.zify_post_hook ::= idtac.
 
@@ -262,6 +269,9 @@ Proof.
     + intros j c Hj Hm. rewrite Hw in Hj. destruct (Hsame j) as (_ & _ & _ & S4 & _). rewrite S4 in Hm. rewrite Hb. exact (ri_mk r I j c Hj Hm).
 Qed.
 
+(* congruence of ids, kept folded so that lia does not see `mod` by the large constant *)
+Definition cg (a b : N) : Prop := a mod pow20 = b mod pow20.
+
 (* ---------- advance_window ---------- *)
 Definition Geo (r : receiver) : Prop :=
   0 < r_wsize r /\ 2 * r_wsize r <= pow20 /\ pow20 mod r_wsize r = 0 /\ length (r_slots r) = N.to_nat (r_wsize r) /\ r_base r < pow20.
@@ -463,4 +473,518 @@ Proof.
     destruct (N.eqb_spec o (j0 + 1)) as [E|Hne].
     + clearbody o. clear - E. destruct (N.ltb_spec j0 o), (N.leb_spec o (j0 + N.of_nat (S n))); cbn [andb]; try reflexivity; lia.
     + fold o. clearbody o. clear - Hne. destruct (N.ltb_spec (j0 + 1) o), (N.leb_spec o (j0 + 1 + N.of_nat n)), (N.ltb_spec j0 o), (N.leb_spec o (j0 + N.of_nat (S n))); cbn [andb]; try reflexivity; lia.
+Qed.
+
+Lemma so_W r : Geo r -> so r (r_wsize r) = so r 0.
+Proof. intros (H & _). unfold so, sidx. rewrite mod_W_W by exact H. rewrite N.add_0_r. reflexivity. Qed.
+
+Lemma RI_MK r : RI r -> MK r.
+Proof.
+  intros I. pose proof (RI_Geo r I) as G. split; [exact (ri_chans r I)|]. split.
+  - intros c cb Hc. destruct (ri_cb r I c cb Hc) as (_ & B2 & B3 & B4 & _). pose proof (ri_eoff r I). repeat split; auto. lia.
+  - intros k c Hk Hm. destruct (ri_mk r I k c Hk Hm) as (cb & Hc & [->|[-> E]]); exists cb; (split; [exact Hc|]); [reflexivity|].
+    rewrite E. unfold sidx. destruct G as (H & _). rewrite mod_W_W by exact H. rewrite N.add_0_r. reflexivity.
+Qed.
+
+Lemma advance_window_RI r nb :
+  RI r -> nb < pow20 -> pid_sub nb (r_base r) <= r_wsize r ->
+  (forall k, k < pid_sub nb (r_base r) -> sl_dflag (so r k) = false) ->
+  let r' := advance_window r nb in
+  RI r' /\ r_base r' = nb /\ r_wsize r' = r_wsize r /\
+  (forall c, cboff r' c = cboff r c - pid_sub nb (r_base r)) /\
+  (forall k, k < r_wsize r -> pid_sub nb (r_base r) + k < r_wsize r ->
+     same_but_marker (so r (pid_sub nb (r_base r) + k)) (so r' k)).
+Proof.
+  intros I Hnb Hd Hnf. cbv zeta. remember (pid_sub nb (r_base r)) as delta eqn:Ed.
+  pose proof (RI_Geo r I) as G. pose proof (RI_MK r I) as M0. destruct (ri_w r I) as (HW & H2W & Hdiv).
+  pose proof (ri_base r I) as Hbase. pose proof (ri_end r I) as Hend. pose proof (ri_eoff r I) as Heo.
+  assert (Hnbc : cg nb (r_base r + delta)) by (rewrite Ed; apply pid_sub_id; assumption).
+  assert (Hb0 : cg (r_base r) (r_base r + 0)) by (unfold cg; rewrite N.add_0_r; reflexivity).
+  assert (Hdn : 0 + N.of_nat (N.to_nat delta) <= r_wsize r) by lia.
+  destruct (adv_clear_spec (N.to_nat delta) 0 (r_base r) r G Hb0 Hdn) as (A1 & A2 & A3 & A4 & A5 & A6).
+  set (r1 := adv_clear (N.to_nat delta) (r_base r) r) in *. clear Hb0.
+  assert (G1 : Geo r1). { destruct G as (P1 & P2 & P3 & P4 & P5). unfold Geo. rewrite A1, A3, A5. auto. }
+  assert (Hsx1 : forall j, sidx r1 j = sidx r j) by (intros j; unfold sidx; rewrite A1, A3; reflexivity).
+  assert (Hmk1 : forall k, k <= r_wsize r -> sl_marker (so r1 k) = sl_marker (so r k) /\ (delta <= k -> k < r_wsize r -> so r1 k = so r k)).
+  { intros k Hk. destruct (N.eq_dec k (r_wsize r)) as [->|Hne].
+    - rewrite <- A3 at 1. rewrite (so_W r1 G1), (so_W r G). split; [|lia]. rewrite (A6 0 HW). destruct (_ && _); reflexivity.
+    - assert (Hk' : k < r_wsize r) by lia. rewrite (A6 k Hk'). split.
+      + destruct (_ && _); reflexivity.
+      + intros Hdk _. destruct (N.leb_spec 0 k); [|lia]. destruct (N.ltb_spec k (0 + N.of_nat (N.to_nat delta))); [lia|]. reflexivity. }
+  assert (M1 : MK r1).
+  { destruct M0 as (ML & Ma & Mb). split; [rewrite A4; exact ML|]. split.
+    - intros c cb Hc. unfold get_chan in Hc. rewrite A4 in Hc. destruct (Ma c cb Hc) as (P1 & P2 & P3). rewrite A1, A3.
+      split; [exact P1|]. split; [exact P2|]. rewrite (proj1 (Hmk1 _ P2)). exact P3.
+    - intros k c Hk Hm. rewrite A3 in Hk. rewrite (proj1 (Hmk1 k ltac:(lia))) in Hm. destruct (Mb k c Hk Hm) as (cb & Hc & Hs).
+      exists cb. unfold get_chan. rewrite A4, A1, !Hsx1. split; [exact Hc|exact Hs]. }
+  assert (Hb1 : cg (r_base r) (r_base r1 + 0)) by (unfold cg; rewrite A1, N.add_0_r; reflexivity).
+  assert (Hdn1 : 0 + N.of_nat (N.to_nat delta) <= r_wsize r1) by (rewrite A3; lia).
+  destruct (adv_unset_spec (N.to_nat delta) 0 (r_base r) r1 G1 M1 Hb1 Hdn1) as (G2 & M2 & B1 & B2 & B3 & B4 & B5 & B6 & B7).
+  set (r2 := adv_unset (N.to_nat delta) (r_base r) r1) in *. clear Hb1.
+  unfold advance_window. rewrite <- Ed. fold r1. fold r2. cbv zeta.
+  match goal with |- RI ?R /\ _ => set (r' := R) end.
+  clearbody r1 r2.
+  replace (0 + N.of_nat (N.to_nat delta)) with delta in * by (clear; lia).
+  assert (Hbase' : r_base r' = nb) by reflexivity. assert (Hw' : r_wsize r' = r_wsize r) by (cbn [r' r_wsize]; congruence).
+  assert (Hsl' : r_slots r' = r_slots r2) by reflexivity. assert (Hch' : r_chans r' = r_chans r2) by reflexivity.
+  assert (Hen' : r_end r' = if eoff r <? delta then nb else r_end r) by reflexivity.
+  clearbody r'.
+  (* slot of r' at offset k is the slot of r2 at offset delta + k of r *)
+  assert (Hsx' : forall k, sidx r' k = sidx r (delta + k)).
+  { intros k. unfold sidx. rewrite Hbase', Hw'. f_equal. apply (cong_W _ HW Hdiv). apply shift_arith2. exact Hnbc. }
+  assert (Hso' : forall k, so r' k = get_slot r2 (sidx r (delta + k))).
+  { intros k. unfold so, get_slot. rewrite Hsx', Hsl'. reflexivity. }
+  (* channel bases *)
+  assert (Hcb2 : forall c, rc_base (get_chan r' c) =
+                           match rc_base (get_chan r c) with Some cb => if pid_sub cb (r_base r) <=? delta then None else Some cb | None => None end).
+  { intros c. replace (get_chan r' c) with (get_chan r2 c) by (unfold get_chan; rewrite Hch'; reflexivity). rewrite B7. unfold get_chan at 1. rewrite A4. fold (get_chan r c). rewrite A1.
+    destruct (rc_base (get_chan r c)) as [cb|] eqn:Hc; [|reflexivity].
+    destruct (ri_cb r I c cb Hc) as (_ & P2 & _). destruct (N.ltb_spec 0 (pid_sub cb (r_base r))); [|lia]. reflexivity. }
+  assert (Hoff' : forall c cb, rc_base (get_chan r c) = Some cb -> delta < pid_sub cb (r_base r) -> pid_sub cb nb = pid_sub cb (r_base r) - delta).
+  { intros c cb Hc Hlt. destruct (ri_cb r I c cb Hc) as (P1 & P2 & P3 & _).
+    apply pid_sub_spec; [exact Hnb|unfold pow20 in *; lia|].
+    apply (shift_arith cb (r_base r) nb _ delta); [apply pid_sub_id; assumption|exact Hnbc|lia]. }
+  assert (Hcboff : forall c, cboff r' c = cboff r c - delta).
+  { intros c. unfold cboff. rewrite Hcb2, Hbase'. destruct (rc_base (get_chan r c)) as [cb|] eqn:Hc; [|reflexivity].
+    destruct (N.leb_spec (pid_sub cb (r_base r)) delta) as [Hle|Hgt]; [lia|]. apply (Hoff' c cb Hc Hgt). }
+  assert (Heo' : eoff r' = eoff r - delta /\ r_end r' < pow20).
+  { unfold eoff at 1. rewrite Hbase', Hen'. destruct (N.ltb_spec (eoff r) delta) as [Hlt|Hge].
+    - split; [rewrite (pid_sub_self nb Hnb); clear - Hlt; lia|exact Hnb].
+    - split; [|exact Hend]. apply pid_sub_spec; [exact Hnb|unfold pow20 in *; lia|].
+      apply (shift_arith (r_end r) (r_base r) nb (eoff r) delta); [apply pid_sub_id; assumption|exact Hnbc|exact Hge]. }
+  destruct Heo' as [Heo' Hend'].
+  (* slots at offsets delta + k < W are those of r, up to the marker *)
+  assert (Hkeep : forall K, delta <= K -> K < r_wsize r -> same_but_marker (so r K) (get_slot r2 (sidx r K))).
+  { intros K H1 H2. pose proof (B4 (sidx r K)) as S. rewrite <- Hsx1 in S at 1. fold (so r1 K) in S.
+    rewrite (proj2 (Hmk1 K ltac:(lia)) H1 H2) in S. exact S. }
+  assert (Hwrap : forall K, r_wsize r <= K -> K < r_wsize r + delta -> sl_dflag (get_slot r2 (sidx r K)) = false).
+  { intros K H1 H2. assert (E : sidx r K = sidx r (K - r_wsize r)).
+    { unfold sidx. f_equal. replace (r_base r + K) with (r_base r + (K - r_wsize r) + r_wsize r) by lia. apply mod_W_W. exact HW. }
+    rewrite E. destruct (B4 (sidx r (K - r_wsize r))) as (_ & _ & S3 & _). rewrite S3. rewrite <- Hsx1. fold (so r1 (K - r_wsize r)).
+    rewrite (A6 (K - r_wsize r) ltac:(lia)). destruct (_ && _); cbn [clr sl_dflag]; apply Hnf; lia. }
+  split; [|split; [exact Hbase'|split; [exact Hw'|split; [exact Hcboff|]]]].
+  2:{ intros k Hk HK. rewrite Hso'. apply Hkeep; lia. }
+  constructor.
+  - rewrite Hw'. auto.
+  - rewrite Hw', Hsl'. destruct G2 as (_ & _ & _ & L & _). rewrite L, B3, A3. reflexivity.
+  - rewrite Hch'. destruct M2 as (L & _). exact L.
+  - rewrite Hbase'. exact Hnb.
+  - exact Hend'.
+  - rewrite Heo', Hw'. lia.
+  - intros k Hk Hdf. rewrite Hw' in Hk. rewrite Hso' in Hdf |- *. rewrite Heo', Hcboff.
+    destruct (N.lt_ge_cases (delta + k) (r_wsize r)) as [HK|HK].
+    + destruct (Hkeep (delta + k) ltac:(lia) HK) as (S1 & S2 & S3 & S4 & _). rewrite S1, S2, S4. rewrite S3 in Hdf.
+      destruct (ri_dflag r I (delta + k) HK Hdf) as (P1 & P2 & P3 & P4 & P5). repeat split; auto; lia.
+    + rewrite (Hwrap (delta + k) HK ltac:(lia)) in Hdf. discriminate Hdf.
+  - intros c cb Hc. rewrite Hcb2 in Hc. destruct (rc_base (get_chan r c)) as [cb0|] eqn:Hc0; [|discriminate Hc].
+    destruct (N.leb_spec (pid_sub cb0 (r_base r)) delta) as [Hle|Hgt]; [discriminate Hc|]. injection Hc as <-.
+    destruct (ri_cb r I c cb0 Hc0) as (P1 & P2 & P3 & P4 & P5 & P6). rewrite Hbase', (Hoff' c cb0 Hc0 Hgt), Heo'.
+    remember (pid_sub cb0 (r_base r)) as o eqn:Eo. split; [exact P1|]. split; [lia|]. split; [lia|].
+    rewrite !Hso'. replace (delta + (o - delta)) with o by lia. replace (delta + (o - delta - 1)) with (o - 1) by lia.
+    split.
+    + rewrite B6.
+      * rewrite <- Hsx1. fold (so r1 o). rewrite (proj1 (Hmk1 o ltac:(lia))). exact P4.
+      * intros j J1 J2 E. rewrite Hsx1 in E. apply (sidx_inj_geo r j o G) in E; lia.
+    + destruct (Hkeep (o - 1) ltac:(lia) ltac:(lia)) as (S1 & _ & S3 & _). rewrite S1, S3. auto.
+  - intros k c Hk Hm. rewrite Hw' in Hk. rewrite Hso' in Hm. rewrite Hbase'.
+    remember (delta + k) as K eqn:EK.
+    assert (Hnohit : forall j, 0 < j -> j <= delta -> sidx r1 j <> sidx r K).
+    { intros j J1 J2 E. rewrite <- E, (B5 j J1 J2) in Hm. discriminate Hm. }
+    rewrite (B6 _ Hnohit) in Hm.
+    remember (if K <? r_wsize r then K else K - r_wsize r) as kk eqn:Ekk.
+    assert (Hkk : kk < r_wsize r /\ sidx r kk = sidx r K).
+    { rewrite Ekk. destruct (N.ltb_spec K (r_wsize r)); [split; [assumption|reflexivity]|]. split; [lia|].
+      unfold sidx. f_equal. replace (r_base r + K) with (r_base r + (K - r_wsize r) + r_wsize r) by lia. symmetry. apply mod_W_W. exact HW. }
+    destruct Hkk as [Hkk1 Hkk2]. rewrite <- Hkk2, <- Hsx1 in Hm. fold (so r1 kk) in Hm. rewrite (proj1 (Hmk1 kk ltac:(lia))) in Hm.
+    destruct (ri_mk r I kk c Hkk1 Hm) as (cb & Hc & Hor). destruct (ri_cb r I c cb Hc) as (P1 & P2 & P3 & _).
+    remember (pid_sub cb (r_base r)) as o eqn:Eo.
+    assert (Hgt : delta < o).
+    { destruct (N.lt_ge_cases delta o) as [|Hle]; [assumption|]. exfalso. apply (Hnohit o P2 Hle). rewrite Hsx1, <- Hkk2.
+      destruct Hor as [->|[-> E]]; [reflexivity|]. rewrite E. unfold sidx. rewrite mod_W_W by exact HW. rewrite N.add_0_r. reflexivity. }
+    exists cb. rewrite Hcb2, Hc, <- Eo. destruct (N.leb_spec o delta); [lia|]. split; [reflexivity|].
+    rewrite (Hoff' c cb Hc ltac:(rewrite <- Eo; exact Hgt)), <- Eo. rewrite Ekk in Hor. rewrite EK in *.
+    destruct (N.ltb_spec (delta + k) (r_wsize r)); destruct Hor as [E|[E1 E2]]; lia.
+Qed.
+
+(* ---------- the two scans ---------- *)
+Lemma recv_scan_spec r : RI r -> forall n seq nbid j m,
+  cg seq (r_base r + j) -> cg nbid (r_base r + m) -> nbid < pow20 -> m <= j -> j + N.of_nat n <= eoff r ->
+  (forall k, m <= k -> k < j -> sl_entry (so r k) = false) ->
+  exists m', recv_scan n seq nbid r < pow20 /\ cg (recv_scan n seq nbid r) (r_base r + m') /\ m <= m' /\ m' <= j + N.of_nat n /\
+             forall k, m <= k -> k < m' -> sl_dflag (so r k) = false.
+Proof.
+  intros I. pose proof (RI_Geo r I) as G. pose proof (ri_eoff r I) as Heo.
+  assert (Hne : forall k, k < r_wsize r -> sl_entry (so r k) = false -> sl_dflag (so r k) = false).
+  { intros k Hk He. destruct (sl_dflag (so r k)) eqn:Hd; [|reflexivity]. destruct (ri_dflag r I k Hk Hd) as (P & _). congruence. }
+  induction n as [|n IH]; intros seq nbid j m Hs Hb Hlt Hmj Hn Hrange; cbn [recv_scan].
+  - exists m. split; [exact Hlt|]. split; [exact Hb|]. split; [lia|]. split; [lia|]. intros k H1 H2. lia.
+  - rewrite (widx_geo r seq j G Hs). fold (so r j).
+    assert (Hs' : cg (pid_add seq 1) (r_base r + (j + 1))).
+    { destruct (pid_add_any seq 1 ltac:(reflexivity)) as [Ha _]. unfold cg. rewrite Ha, N.add_assoc. apply succ_arith_gen. exact Hs. }
+    assert (Hlt' : pid_add seq 1 < pow20) by (apply pid_add_any; reflexivity).
+    destruct (sl_entry (so r j)) eqn:He.
+    + destruct (lead_ok _ _).
+      * destruct (sl_dflag (so r j)) eqn:Hd.
+        -- exists m. split; [exact Hlt|]. split; [exact Hb|]. split; [lia|]. split; [lia|]. intros k H1 H2. lia.
+        -- destruct (IH (pid_add seq 1) (pid_add seq 1) (j + 1) (j + 1) Hs' Hs' Hlt' ltac:(lia) ltac:(lia)) as (m' & Q1 & Q2 & Q3 & Q4 & Q5).
+           { intros k H1 H2. lia. }
+           exists m'. split; [exact Q1|]. split; [exact Q2|]. split; [lia|]. split; [lia|].
+           intros k H1 H2. destruct (N.lt_ge_cases k j) as [Hkj|Hkj]; [apply Hne; [lia|apply Hrange; lia]|].
+           destruct (N.eq_dec k j) as [->|Hnj]; [exact Hd|]. apply Q5; lia.
+      * exists m. split; [exact Hlt|]. split; [exact Hb|]. split; [lia|]. split; [lia|]. intros k H1 H2. lia.
+    + destruct (IH (pid_add seq 1) nbid (j + 1) m Hs' Hb Hlt ltac:(lia) ltac:(lia)) as (m' & Q1 & Q2 & Q3 & Q4 & Q5).
+      { intros k H1 H2. destruct (N.eq_dec k j) as [->|Hnj]; [exact He|]. apply Hrange; lia. }
+      exists m'. split; [exact Q1|]. split; [exact Q2|]. split; [lia|]. split; [lia|]. exact Q5.
+Qed.
+
+Lemma resync_scan_spec r : RI r -> forall n seq j,
+  cg seq (r_base r + j) -> seq < pow20 -> j + N.of_nat n <= r_wsize r ->
+  exists j', resync_scan n seq r < pow20 /\ cg (resync_scan n seq r) (r_base r + j') /\ j <= j' /\ j' <= j + N.of_nat n /\
+             forall k, j <= k -> k < j' -> sl_entry (so r k) = false.
+Proof.
+  intros I. pose proof (RI_Geo r I) as G.
+  induction n as [|n IH]; intros seq j Hs Hlt Hn; cbn [resync_scan].
+  - exists j. split; [exact Hlt|]. split; [exact Hs|]. split; [lia|]. split; [lia|]. intros k H1 H2. lia.
+  - rewrite (widx_geo r seq j G Hs). fold (so r j). destruct (sl_entry (so r j)) eqn:He.
+    + exists j. split; [exact Hlt|]. split; [exact Hs|]. split; [lia|]. split; [lia|]. intros k H1 H2. lia.
+    + assert (Hs' : cg (pid_add seq 1) (r_base r + (j + 1))).
+      { destruct (pid_add_any seq 1 ltac:(reflexivity)) as [Ha _]. unfold cg. rewrite Ha, N.add_assoc. apply succ_arith_gen. exact Hs. }
+      destruct (IH (pid_add seq 1) (j + 1) Hs' ltac:(apply pid_add_any; reflexivity) ltac:(lia)) as (j' & Q1 & Q2 & Q3 & Q4 & Q5).
+      exists j'. split; [exact Q1|]. split; [exact Q2|]. split; [lia|]. split; [lia|].
+      intros k H1 H2. destruct (N.eq_dec k j) as [->|Hnj]; [exact He|]. apply Q5; lia.
+Qed.
+
+(* ---------- one delivery ---------- *)
+Lemma RI_same r r' :
+  r_wsize r' = r_wsize r -> r_slots r' = r_slots r -> r_chans r' = r_chans r -> r_base r' = r_base r -> r_end r' = r_end r ->
+  RI r -> RI r'.
+Proof.
+  destruct r as [b1 e1 a1 m1 w1 s1 c1 f1 g1], r' as [b2 e2 a2 m2 w2 s2 c2 f2 g2]. cbn [r_wsize r_slots r_chans r_base r_end]. intros -> -> -> -> -> [A1 A2 A3 A4 A5 A6 A7 A8 A9].
+  constructor; assumption.
+Qed.
+
+Lemma deliver_step r j seq crf' :
+  RI r -> cg seq (r_base r + j) -> j < eoff r -> sl_dflag (so r j) = true ->
+  (forall k, k < r_wsize r -> k <> j -> sl_dflag (so r k) = true -> sl_chan (so r k) = sl_chan (so r j) -> j < k) ->
+  let s := so r j in
+  let chan := sl_chan s in
+  let ch := get_chan r chan in
+  let s' := mkSlot (sl_asm s) (sl_entry s) false (sl_chan s) (sl_cpl s) (sl_wpl s) None (sl_marker s) in
+  let r1 := mkReceiver (r_base r) (r_end r) (r_alloc r) (r_max_alloc r) (r_wsize r) (upd (r_slots r) (sidx r j) s')
+                       (upd (r_chans r) (N.to_nat chan) (mkRChan (rc_base ch) (rc_count ch - 1))) crf' (r_wrf r) in
+  let r2 := set_channel_base_id r1 chan (pid_add seq 1) in
+  RI r2 /\ r_base r2 = r_base r /\ r_end r2 = r_end r /\ r_wsize r2 = r_wsize r /\ r_crf r2 = crf' /\
+  cboff r2 chan = j + 1 /\ (forall c, c <> chan -> cboff r2 c = cboff r c) /\
+  (forall k, k < r_wsize r -> sl_dflag (so r2 k) = if k =? j then false else sl_dflag (so r k)) /\
+  (forall k, k < r_wsize r -> sl_chan (so r2 k) = sl_chan (so r k)).
+Proof.
+  intros I Hseq Hj Hd Hlow. cbv zeta.
+  pose proof (RI_Geo r I) as G. destruct (ri_w r I) as (HW & H2W & Hdiv). pose proof (ri_eoff r I) as Heo.
+  assert (HjW : j < r_wsize r) by lia.
+  destruct (ri_dflag r I j HjW Hd) as (D1 & D2 & D3 & D4 & D5).
+  remember (so r j) as s eqn:Es. remember (sl_chan s) as chan eqn:Ech.
+  remember (mkSlot (sl_asm s) (sl_entry s) false chan (sl_cpl s) (sl_wpl s) None (sl_marker s)) as s' eqn:Es'.
+  pose proof (sidx_lt_geo r j G) as Hi.
+  assert (Hcl : (N.to_nat chan < length (r_chans r))%nat) by (rewrite (ri_chans r I); lia).
+  match goal with |- context [set_channel_base_id ?R _ _] => remember R as r1 eqn:Er1 end.
+  assert (R1b : r_base r1 = r_base r) by (rewrite Er1; reflexivity).
+  assert (R1e : r_end r1 = r_end r) by (rewrite Er1; reflexivity).
+  assert (R1w : r_wsize r1 = r_wsize r) by (rewrite Er1; reflexivity).
+  assert (R1s : r_slots r1 = upd (r_slots r) (sidx r j) s') by (rewrite Er1; reflexivity).
+  assert (R1c : r_chans r1 = upd (r_chans r) (N.to_nat chan) (mkRChan (rc_base (get_chan r chan)) (rc_count (get_chan r chan) - 1))) by (rewrite Er1; reflexivity).
+  assert (R1f : r_crf r1 = crf') by (rewrite Er1; reflexivity).
+  clear Er1.
+  assert (Hsx1 : forall k, sidx r1 k = sidx r k) by (intros k; unfold sidx; rewrite R1b, R1w; reflexivity).
+  assert (Hgs1 : forall i, get_slot r1 i = if Nat.eqb (sidx r j) i then s' else get_slot r i).
+  { intros i. unfold get_slot. rewrite R1s. apply nth_upd_eq. exact Hi. }
+  assert (Hgc1 : forall c, rc_base (get_chan r1 c) = rc_base (get_chan r c)).
+  { intros c. unfold get_chan at 1. rewrite R1c, get_chan_upd by exact Hcl. destruct (N.eqb_spec chan c) as [->|_]; reflexivity. }
+  assert (Hcnt1 : get_chan r1 chan = mkRChan (rc_base (get_chan r chan)) (rc_count (get_chan r chan) - 1)).
+  { unfold get_chan at 1. rewrite R1c, get_chan_upd by exact Hcl. rewrite N.eqb_refl. reflexivity. }
+  assert (L1s : length (r_slots r1) = length (r_slots r)) by (rewrite R1s; apply upd_length).
+  assert (L1c : length (r_chans r1) = length (r_chans r)) by (rewrite R1c; apply upd_length).
+  (* the id of the new channel base *)
+  destruct (pid_add_any seq 1 ltac:(reflexivity)) as [Hna Hnlt]. remember (pid_add seq 1) as next eqn:En.
+  assert (Hnext : cg next (r_base r + (j + 1))) by (unfold cg; rewrite Hna, N.add_assoc; apply succ_arith_gen; exact Hseq).
+  assert (Hno : pid_sub next (r_base r) = j + 1).
+  { apply pid_sub_spec; [exact (ri_base r I)|unfold pow20 in *; lia|exact Hnext]. }
+  clear Hna.
+  assert (G1 : Geo r1). { destruct G as (P1 & P2 & P3 & P4 & P5). unfold Geo. rewrite R1w, R1b, L1s. auto. }
+  unfold set_channel_base_id. rewrite Hcnt1. cbn [rc_base rc_count].
+  (* first the old marker (if any) is removed *)
+  remember (rc_base (get_chan r chan)) as ob eqn:Eob.
+  match goal with |- context [set_slots ?RA (upd (r_slots ?RA) _ (slot_set_marker _ (Some chan)))] => remember RA as ra eqn:Era end.
+  assert (Hra : r_base ra = r_base r /\ r_end ra = r_end r /\ r_wsize ra = r_wsize r /\ r_chans ra = r_chans r1 /\ r_crf ra = crf' /\
+                length (r_slots ra) = length (r_slots r) /\
+                forall i, get_slot ra i = match ob with
+                                          | Some b => if Nat.eqb (sidx r (pid_sub b (r_base r))) i then slot_set_marker (get_slot r1 i) None else get_slot r1 i
+                                          | None => get_slot r1 i end).
+  { rewrite Era. destruct ob as [b|].
+    - cbn [set_slots r_base r_end r_wsize r_chans r_crf r_slots]. rewrite upd_length. repeat split; auto; try congruence.
+      intros i. unfold get_slot at 1. cbn [set_slots r_slots]. rewrite nth_upd_eq.
+      + rewrite (widx_geo r1 b (pid_sub b (r_base r)) G1) by (rewrite R1b; apply pid_sub_any; exact (ri_base r I)). rewrite Hsx1.
+        destruct (Nat.eqb_spec (sidx r (pid_sub b (r_base r))) i) as [<-|_]; reflexivity.
+      + unfold widx. rewrite L1s, R1w. destruct G as (_ & _ & _ & L & _). rewrite L. pose proof (N.mod_lt b (r_wsize r)). lia.
+    - repeat split; auto; congruence. }
+  clear Era. destruct Hra as (Ab & Ae & Aw & Ac & Af & Al & Ag).
+  assert (Ga : Geo ra). { destruct G as (P1 & P2 & P3 & P4 & P5). unfold Geo. rewrite Aw, Ab, Al. auto. }
+  rewrite (widx_geo ra next (j + 1) Ga) by (rewrite Ab; exact Hnext).
+  assert (Hsxa : forall k, sidx ra k = sidx r k) by (intros k; unfold sidx; rewrite Ab, Aw; reflexivity). rewrite Hsxa.
+  match goal with |- RI ?R /\ _ => remember R as r2 eqn:Er2 end.
+  assert (R2b : r_base r2 = r_base r) by (rewrite Er2; cbn; congruence).
+  assert (R2e : r_end r2 = r_end r) by (rewrite Er2; cbn; congruence).
+  assert (R2w : r_wsize r2 = r_wsize r) by (rewrite Er2; cbn; congruence).
+  assert (R2f : r_crf r2 = crf') by (rewrite Er2; cbn; congruence).
+  assert (R2s : r_slots r2 = upd (r_slots ra) (sidx r (j + 1)) (slot_set_marker (get_slot ra (sidx r (j + 1))) (Some chan))) by (rewrite Er2; reflexivity).
+  assert (R2c : r_chans r2 = upd (r_chans r1) (N.to_nat chan) (mkRChan (Some next) (rc_count (get_chan r chan) - 1))).
+  { rewrite Er2. cbn [set_chans set_slots r_chans]. rewrite Ac. reflexivity. }
+  clear Er2.
+  assert (Hsx2 : forall k, sidx r2 k = sidx r k) by (intros k; unfold sidx; rewrite R2b, R2w; reflexivity).
+  assert (Hgs2 : forall i, get_slot r2 i = if Nat.eqb (sidx r (j + 1)) i then slot_set_marker (get_slot ra i) (Some chan) else get_slot ra i).
+  { intros i. unfold get_slot at 1. rewrite R2s, nth_upd_eq by (rewrite Al; apply sidx_lt_geo; exact G).
+    destruct (Nat.eqb_spec (sidx r (j + 1)) i) as [<-|_]; reflexivity. }
+  assert (Hgc2 : forall c, rc_base (get_chan r2 c) = if chan =? c then Some next else rc_base (get_chan r c)).
+  { intros c. unfold get_chan at 1. rewrite R2c.
+    assert (Hcl1 : (N.to_nat chan < length (r_chans r1))%nat) by (rewrite L1c; exact Hcl).
+    replace (nth (N.to_nat c) (upd (r_chans r1) (N.to_nat chan) (mkRChan (Some next) (rc_count (get_chan r chan) - 1))) (mkRChan None 0))
+      with (if chan =? c then mkRChan (Some next) (rc_count (get_chan r chan) - 1) else get_chan r1 c) by (symmetry; apply get_chan_upd; exact Hcl1).
+    destruct (chan =? c); [reflexivity|apply Hgc1]. }
+  (* the slot at offset k afterwards *)
+  assert (Hmark : forall i, same_but_marker (get_slot r1 i) (get_slot r2 i)).
+  { intros i. rewrite Hgs2, Ag. destruct ob as [b|]; repeat (match goal with |- context [Nat.eqb ?a ?b] => destruct (Nat.eqb a b) end);
+      unfold same_but_marker, slot_set_marker; cbn; auto 10. }
+  assert (Hflag : forall k, k < r_wsize r -> sl_dflag (so r2 k) = (if k =? j then false else sl_dflag (so r k)) /\ sl_chan (so r2 k) = sl_chan (so r k) /\
+                            sl_entry (so r2 k) = sl_entry (so r k) /\ sl_asm (so r2 k) = sl_asm (so r k)).
+  { intros k Hk. unfold so at 1 3 5 7. rewrite Hsx2. destruct (Hmark (sidx r k)) as (S1 & S2 & S3 & S4 & _). rewrite S1, S2, S3, S4, Hgs1.
+    destruct (Nat.eqb_spec (sidx r j) (sidx r k)) as [E|Hne].
+    - apply (sidx_eq_iff r j k G HjW Hk) in E. subst k. rewrite N.eqb_refl. rewrite Es'. cbn [sl_dflag sl_chan sl_entry sl_asm]. rewrite Ech, Es. auto.
+    - destruct (N.eqb_spec k j) as [->|_]; [exfalso; apply Hne; reflexivity|]. fold (so r k). auto. }
+  assert (Hcb2 : forall c, cboff r2 c = if chan =? c then j + 1 else cboff r c).
+  { intros c. unfold cboff. rewrite Hgc2, R2b. destruct (chan =? c); [exact Hno|reflexivity]. }
+  (* markers *)
+  assert (Hmk2 : forall i, sl_marker (get_slot r2 i) =
+                           if Nat.eqb (sidx r (j + 1)) i then Some chan
+                           else match ob with
+                                | Some b => if Nat.eqb (sidx r (pid_sub b (r_base r))) i then None else sl_marker (get_slot r i)
+                                | None => sl_marker (get_slot r i) end).
+  { intros i. rewrite Hgs2. destruct (Nat.eqb (sidx r (j + 1)) i); [reflexivity|]. rewrite Ag.
+    assert (Hm1 : sl_marker (get_slot r1 i) = sl_marker (get_slot r i)).
+    { rewrite Hgs1. destruct (Nat.eqb_spec (sidx r j) i) as [<-|_]; [|reflexivity]. rewrite Es'. cbn [sl_marker]. rewrite Es. reflexivity. }
+    destruct ob as [b|]; [|exact Hm1]. destruct (Nat.eqb _ i); [reflexivity|exact Hm1]. }
+  split; [|split; [exact R2b|split; [exact R2e|split; [exact R2w|split; [exact R2f|]]]]].
+  2:{ split; [rewrite Hcb2, N.eqb_refl; reflexivity|]. split.
+      - intros c Hc. rewrite Hcb2. destruct (N.eqb_spec chan c); [congruence|reflexivity].
+      - split; intros k Hk; apply (Hflag k Hk). }
+  (* old base of the channel, if any *)
+  assert (Hob : match ob with Some b => 0 < pid_sub b (r_base r) /\ pid_sub b (r_base r) <= j /\ sl_marker (so r (pid_sub b (r_base r))) = Some chan | None => True end).
+  { destruct ob as [b|]; [|exact Logic.I]. symmetry in Eob. destruct (ri_cb r I chan b Eob) as (_ & P2 & _ & P4 & _).
+    split; [exact P2|]. split; [|exact P4]. unfold cboff in D5. rewrite Eob in D5. exact D5. }
+  constructor.
+  - rewrite R2w. auto.
+  - rewrite R2w, R2s, upd_length, Al. exact (ri_len r I).
+  - rewrite R2c, upd_length, L1c. exact (ri_chans r I).
+  - rewrite R2b. exact (ri_base r I).
+  - rewrite R2e. exact (ri_end r I).
+  - unfold eoff. rewrite R2e, R2b, R2w. exact Heo.
+  - intros k Hk Hdf. rewrite R2w in Hk. destruct (Hflag k Hk) as (F1 & F2 & F3 & F4). rewrite F1 in Hdf.
+    destruct (N.eqb_spec k j) as [->|Hnj]; [discriminate Hdf|]. rewrite F2, F3, F4. unfold eoff. rewrite R2e, R2b. fold (eoff r).
+    destruct (ri_dflag r I k Hk Hdf) as (P1 & P2 & P3 & P4 & P5). split; [exact P1|]. split; [exact P2|]. split; [exact P3|]. split; [exact P4|].
+    rewrite Hcb2. destruct (N.eqb_spec chan (sl_chan (so r k))) as [E|_]; [|exact P5].
+    assert (j < k) by (apply Hlow; [exact Hk|exact Hnj|exact Hdf|symmetry; exact E]). lia.
+  - intros c cb Hc. rewrite Hgc2 in Hc. rewrite R2b. unfold eoff. rewrite R2e, R2b. fold (eoff r).
+    destruct (N.eqb_spec chan c) as [<-|Hne].
+    + injection Hc as <-. rewrite Hno. split; [exact Hnlt|]. split; [lia|]. split; [lia|].
+      split; [unfold so; rewrite Hsx2, Hmk2, Nat.eqb_refl; reflexivity|]. replace (j + 1 - 1) with j by lia.
+      destruct (Hflag j HjW) as (F1 & _ & _ & F4). rewrite F1, F4, N.eqb_refl, <- Es. auto.
+    + destruct (ri_cb r I c cb Hc) as (P1 & P2 & P3 & P4 & P5 & P6). remember (pid_sub cb (r_base r)) as o eqn:Eo.
+      split; [exact P1|]. split; [exact P2|]. split; [exact P3|].
+      assert (Hoj : o <> j + 1). { intros ->. replace (j + 1 - 1) with j in P5 by lia. rewrite <- Es in P5. rewrite Hd in P5. discriminate P5. }
+      split.
+      * unfold so at 1. rewrite Hsx2, Hmk2. destruct (Nat.eqb_spec (sidx r (j + 1)) (sidx r o)) as [E|_].
+        { exfalso. destruct (N.le_gt_cases (j + 1) o); [apply (sidx_inj_geo r _ _ G) in E; lia|symmetry in E; apply (sidx_inj_geo r _ _ G) in E; lia]. }
+        destruct ob as [b|]; [|exact P4]. destruct Hob as (O1 & O2 & O3).
+        destruct (Nat.eqb_spec (sidx r (pid_sub b (r_base r))) (sidx r o)) as [E|_]; [|exact P4].
+        exfalso. unfold so in O3, P4. rewrite E in O3. rewrite O3 in P4. injection P4 as ->. apply Hne. reflexivity.
+      * destruct (Hflag (o - 1) ltac:(lia)) as (F1 & _ & _ & F4). rewrite F1, F4.
+        destruct (N.eqb_spec (o - 1) j); auto.
+  - intros k c Hk Hm. rewrite R2w in Hk. rewrite R2b, R2w. unfold so in Hm. rewrite Hsx2, Hmk2 in Hm.
+    destruct (Nat.eqb_spec (sidx r (j + 1)) (sidx r k)) as [E|Hn1].
+    + injection Hm as <-. exists next. rewrite Hgc2, N.eqb_refl, Hno. split; [reflexivity|].
+      destruct (N.eq_dec (j + 1) (r_wsize r)) as [EW|NW].
+      * right. split; [|exact EW]. rewrite EW in E. unfold sidx in E. rewrite mod_W_W in E by exact HW.
+        assert (E' : sidx r 0 = sidx r k) by (unfold sidx; rewrite N.add_0_r; exact E). apply (sidx_eq_iff r 0 k G HW Hk) in E'. lia.
+      * left. apply (sidx_eq_iff r (j + 1) k G ltac:(lia) Hk) in E. lia.
+    + assert (Hm' : sl_marker (so r k) = Some c /\ match ob with Some b => sidx r (pid_sub b (r_base r)) <> sidx r k | None => True end).
+      { destruct ob as [b|]; [|split; [exact Hm|exact Logic.I]]. destruct (Nat.eqb_spec (sidx r (pid_sub b (r_base r))) (sidx r k)); [discriminate Hm|]. split; [exact Hm|assumption]. }
+      destruct Hm' as [Hm' Hnb]. destruct (ri_mk r I k c Hk Hm') as (cb & Hc & Hor). exists cb. rewrite Hgc2.
+      destruct (N.eqb_spec chan c) as [<-|_]; [|split; [exact Hc|exact Hor]].
+      exfalso. rewrite <- Eob in Hc. rewrite Hc in Hnb. apply Hnb. destruct Hor as [->|[-> E]]; [reflexivity|].
+      rewrite E. unfold sidx. rewrite mod_W_W by exact HW. rewrite N.add_0_r. reflexivity.
+Qed.
+
+(* ---------- the delivery loop, with a ghost log of (channel, 20-bit id, data) ---------- *)
+Definition logent := (N * N * option (list N))%type.
+
+Fixpoint recv_deliver_g (n : nat) (seq base_id : N) (r : receiver) (out : list (list N)) (log : list logent)
+  : receiver * list (list N) * list logent :=
+  match n with
+  | O => (r, out, log)
+  | S n' =>
+      if r_crf r =? 0 then (r, out, log) else
+      let i := widx r seq in
+      let s := get_slot r i in
+      let next := pid_add seq 1 in
+      if sl_dflag s then
+        let chan := sl_chan s in
+        if N.testbit (r_crf r) chan then
+          let ch := get_chan r chan in
+          let channel_base_id := opt_default base_id (rc_base ch) in
+          let channel_delta := pid_sub seq channel_base_id in
+          if lead_ok (sl_cpl s) channel_delta then
+            let out' := match sl_data s with Some d => out ++ [d] | None => out end in
+            let s' := mkSlot (sl_asm s) (sl_entry s) false (sl_chan s) (sl_cpl s) (sl_wpl s) None (sl_marker s) in
+            let cnt := rc_count ch - 1 in
+            let crf' := if cnt =? 0 then N.clearbit (r_crf r) chan else r_crf r in
+            let r1 := mkReceiver (r_base r) (r_end r) (r_alloc r) (r_max_alloc r) (r_wsize r)
+                                 (upd (r_slots r) i s') (upd (r_chans r) (N.to_nat chan) (mkRChan (rc_base ch) cnt))
+                                 crf' (r_wrf r) in
+            recv_deliver_g n' next base_id (set_channel_base_id r1 chan next) out' (log ++ [(chan, seq, sl_data s)])
+          else
+            let r1 := mkReceiver (r_base r) (r_end r) (r_alloc r) (r_max_alloc r) (r_wsize r)
+                                 (r_slots r) (r_chans r) (N.clearbit (r_crf r) chan) (r_wrf r) in
+            recv_deliver_g n' next base_id r1 out log
+        else recv_deliver_g n' next base_id r out log
+      else recv_deliver_g n' next base_id r out log
+  end.
+
+Definition log_data (l : list logent) : list (list N) :=
+  flat_map (fun e => match snd e with Some d => [d] | None => [] end) l.
+
+Lemma log_data_app a b : log_data (a ++ b) = log_data a ++ log_data b.
+Proof. unfold log_data. apply flat_map_app. Qed.
+
+(* erasing the log gives the model's function; what is handed out is the data of the log entries *)
+Lemma recv_deliver_g_erase : forall n seq b r out log,
+  let '(r', out', log') := recv_deliver_g n seq b r out log in
+  recv_deliver n seq b r out = (r', out') /\ exists nl, log' = log ++ nl /\ out' = out ++ log_data nl.
+Proof.
+  induction n as [|n IH]; intros seq b r out log; cbn [recv_deliver_g recv_deliver].
+  - split; [reflexivity|]. exists []. rewrite !app_nil_r. auto.
+  - destruct (r_crf r =? 0). { split; [reflexivity|]. exists []. rewrite !app_nil_r. auto. }
+    destruct (sl_dflag (get_slot r (widx r seq))); [|apply IH].
+    destruct (N.testbit (r_crf r) _); [|apply IH].
+    destruct (lead_ok _ _); [|apply IH].
+    match goal with |- context [recv_deliver_g n ?a ?b ?c ?d ?e] => specialize (IH a b c d e); destruct (recv_deliver_g n a b c d e) as [[r' out'] log'] end.
+    destruct IH as (E & nl & El & Eo). split; [exact E|].
+    eexists. rewrite El, <- app_assoc. split; [reflexivity|]. rewrite Eo, log_data_app. cbn [log_data flat_map snd app].
+    destruct (sl_data _); cbn [app]; rewrite <- ?app_assoc, ?app_nil_r; reflexivity.
+Qed.
+
+From Coq Require Import Sorted.
+
+Definition gd := list (N * N).     (* ghost: (channel, absolute id) of every delivery so far *)
+Definition chan_ids (D : gd) (c : N) : list N := map snd (filter (fun e => fst e =? c) D).
+Definition chan_sorted (D : gd) : Prop := forall c, StronglySorted N.lt (chan_ids D c).
+Definition Dok (B : N) (r : receiver) (D : gd) : Prop := forall c A, In (c, A) D -> A < B + cboff r c.
+
+Lemma sorted_snoc l x : StronglySorted N.lt l -> (forall y, In y l -> y < x) -> StronglySorted N.lt (l ++ [x]).
+Proof.
+  induction 1 as [|a l S IH F]; intros H; cbn [app].
+  - constructor; constructor.
+  - constructor.
+    + apply IH. intros y Hy. apply H. right. exact Hy.
+    + apply Forall_app. split; [exact F|]. constructor; [apply H; left; reflexivity|constructor].
+Qed.
+
+Lemma chan_sorted_snoc D c A : chan_sorted D -> (forall A', In (c, A') D -> A' < A) -> chan_sorted (D ++ [(c, A)]).
+Proof.
+  intros S H c'. unfold chan_ids. rewrite filter_app, map_app. cbn [filter fst].
+  destruct (N.eqb_spec c c') as [<-|Hne]; cbn [map snd]; [|rewrite app_nil_r; apply S].
+  apply sorted_snoc; [apply S|]. intros y Hy. apply in_map_iff in Hy as ((c2 & A2) & E & Hin). cbn [snd] in E. subst A2.
+  apply filter_In in Hin as [Hin Hc]. cbn [fst] in Hc. apply N.eqb_eq in Hc. subst c2. apply H. exact Hin.
+Qed.
+
+Definition Skip (r : receiver) (j : N) : Prop :=
+  forall k, k < j -> sl_dflag (so r k) = true -> N.testbit (r_crf r) (sl_chan (so r k)) = false.
+
+Lemma deliver_loop B : forall n seq j r out log D,
+  RI r -> cg seq (r_base r + j) -> j + N.of_nat n <= eoff r -> Skip r j -> Dok B r D -> chan_sorted D ->
+  let '(r', out', log') := recv_deliver_g n seq (r_base r) r out log in
+  RI r' /\ r_base r' = r_base r /\ r_end r' = r_end r /\ r_wsize r' = r_wsize r /\
+  exists nl, log' = log ++ nl /\
+             let D' := D ++ map (fun e => (fst (fst e), B + pid_sub (snd (fst e)) (r_base r))) nl in
+             Dok B r' D' /\ chan_sorted D'.
+Proof.
+  induction n as [|n IH]; intros seq j r out log D I Hseq Hn Hskip HD HS; cbn [recv_deliver_g].
+  - cbv beta iota zeta. split; [exact I|]. split; [reflexivity|]. split; [reflexivity|]. split; [reflexivity|]. exists []. cbn [map]. rewrite !app_nil_r. auto.
+  - pose proof (RI_Geo r I) as G. pose proof (ri_eoff r I) as Heo.
+    assert (Stop : RI r /\ r_base r = r_base r /\ r_end r = r_end r /\ r_wsize r = r_wsize r /\
+                   exists nl, log = log ++ nl /\ let D' := D ++ map (fun e : logent => (fst (fst e), B + pid_sub (snd (fst e)) (r_base r))) nl in Dok B r D' /\ chan_sorted D').
+    { split; [exact I|]. split; [reflexivity|]. split; [reflexivity|]. split; [reflexivity|]. exists []. cbv zeta. cbn [map]. rewrite !app_nil_r. auto. }
+    destruct (r_crf r =? 0); [exact Stop|]. clear Stop.
+    assert (HjW : j < r_wsize r) by lia.
+    assert (Hseq' : cg (pid_add seq 1) (r_base r + (j + 1))).
+    { destruct (pid_add_any seq 1 ltac:(reflexivity)) as [Ha _]. unfold cg. rewrite Ha, N.add_assoc. apply succ_arith_gen. exact Hseq. }
+    assert (Hn' : j + 1 + N.of_nat n <= eoff r) by lia.
+    rewrite (widx_geo r seq j G Hseq). fold (so r j).
+    destruct (sl_dflag (so r j)) eqn:Hd.
+    2:{ apply (IH (pid_add seq 1) (j + 1) r out log D I Hseq' Hn'); [|exact HD|exact HS].
+        intros k Hk Hdk. destruct (N.eq_dec k j) as [->|Hne]; [congruence|]. apply Hskip; [lia|exact Hdk]. }
+    destruct (N.testbit (r_crf r) (sl_chan (so r j))) eqn:Hbit.
+    2:{ apply (IH (pid_add seq 1) (j + 1) r out log D I Hseq' Hn'); [|exact HD|exact HS].
+        intros k Hk Hdk. destruct (N.eq_dec k j) as [->|Hne]; [exact Hbit|]. apply Hskip; [lia|exact Hdk]. }
+    destruct (lead_ok _ _).
+    + (* delivery *)
+      remember (if rc_count (get_chan r (sl_chan (so r j))) - 1 =? 0 then N.clearbit (r_crf r) (sl_chan (so r j)) else r_crf r) as crf' eqn:Ecrf.
+      assert (Hlow : forall k, k < r_wsize r -> k <> j -> sl_dflag (so r k) = true -> sl_chan (so r k) = sl_chan (so r j) -> j < k).
+      { intros k Hk Hne Hdk Hck. destruct (N.lt_ge_cases k j) as [Hlt|Hge]; [|lia].
+        pose proof (Hskip k Hlt Hdk) as Hb. rewrite Hck, Hbit in Hb. discriminate Hb. }
+      pose proof (deliver_step r j seq crf' I Hseq ltac:(lia) Hd Hlow) as Hstep. cbv zeta in Hstep.
+      match goal with |- context [recv_deliver_g n _ _ ?R2 _ _] => remember R2 as r2 eqn:Er2 end.
+      destruct Hstep as (I2 & B2 & E2 & W2 & F2 & C2a & C2b & D2 & Ch2).
+      assert (Hseq2 : cg (pid_add seq 1) (r_base r2 + (j + 1))) by (rewrite B2; exact Hseq').
+      assert (Hn2 : j + 1 + N.of_nat n <= eoff r2) by (unfold eoff; rewrite E2, B2; exact Hn').
+      destruct (ri_dflag r I j HjW Hd) as (_ & _ & _ & _ & P5).
+      assert (Hps : pid_sub seq (r_base r) = j).
+      { apply pid_sub_spec; [exact (ri_base r I)|destruct (ri_w r I) as (_ & Q & _); unfold pow20 in *; lia|exact Hseq]. }
+      assert (Hskip2 : Skip r2 (j + 1)).
+      { intros k Hk Hdk. rewrite (D2 k ltac:(lia)) in Hdk. destruct (N.eqb_spec k j) as [->|Hne]; [discriminate Hdk|].
+        rewrite (Ch2 k ltac:(lia)), F2. pose proof (Hskip k ltac:(lia) Hdk) as Hb. rewrite Ecrf.
+        destruct (_ =? 0); [|exact Hb]. destruct (N.eq_dec (sl_chan (so r k)) (sl_chan (so r j))) as [->|Hnc]; [apply N.clearbit_eq|].
+        rewrite N.clearbit_neq by auto. exact Hb. }
+      assert (HD2 : Dok B r2 (D ++ [(sl_chan (so r j), B + j)])).
+      { intros c A Hin. apply in_app_or in Hin as [Hin|[E|[]]].
+        - specialize (HD c A Hin). destruct (N.eq_dec c (sl_chan (so r j))) as [->|Hnc]; [rewrite C2a; lia|rewrite (C2b c Hnc); exact HD].
+        - injection E as <- <-. rewrite C2a. lia. }
+      assert (HS2 : chan_sorted (D ++ [(sl_chan (so r j), B + j)])).
+      { apply chan_sorted_snoc; [exact HS|]. intros A' Hin. specialize (HD _ _ Hin). lia. }
+      specialize (IH (pid_add seq 1) (j + 1) r2 (match sl_data (so r j) with Some d => out ++ [d] | None => out end)
+                     (log ++ [(sl_chan (so r j), seq, sl_data (so r j))]) _ I2 Hseq2 Hn2 Hskip2 HD2 HS2).
+      rewrite B2 in IH.
+      destruct (recv_deliver_g n (pid_add seq 1) (r_base r) r2 _ _) as [[r' out'] log'].
+      destruct IH as (I' & B' & E' & W' & nl & El & HD' & HS').
+      split; [exact I'|]. split; [congruence|]. split; [congruence|]. split; [congruence|].
+      exists ((sl_chan (so r j), seq, sl_data (so r j)) :: nl). split; [rewrite El, <- app_assoc; reflexivity|].
+      cbv zeta in HD', HS' |- *. cbn [map fst snd]. rewrite Hps.
+      rewrite <- app_assoc in HD', HS'. cbn [app] in HD', HS'. split; [exact HD'|exact HS'].
+    + (* lead not satisfied: the channel is closed for this pass *)
+      match goal with |- context [recv_deliver_g n _ _ ?R1 _ _] => remember R1 as r1 eqn:Er1 end.
+      assert (I1 : RI r1) by (apply (RI_same r r1); try (rewrite Er1; reflexivity); exact I).
+      assert (B1 : r_base r1 = r_base r) by (rewrite Er1; reflexivity).
+      assert (Hso1 : forall k, so r1 k = so r k) by (intros k; rewrite Er1; reflexivity).
+      assert (Hcb1 : forall c, cboff r1 c = cboff r c) by (intros c; rewrite Er1; reflexivity).
+      assert (F1 : r_crf r1 = N.clearbit (r_crf r) (sl_chan (so r j))) by (rewrite Er1; reflexivity).
+      assert (Hseq1 : cg (pid_add seq 1) (r_base r1 + (j + 1))) by (rewrite B1; exact Hseq').
+      assert (Hn1 : j + 1 + N.of_nat n <= eoff r1) by (rewrite Er1; exact Hn').
+      assert (Hskip1 : Skip r1 (j + 1)).
+      { intros k Hk Hdk. rewrite Hso1 in Hdk |- *. rewrite F1.
+        destruct (N.eq_dec (sl_chan (so r k)) (sl_chan (so r j))) as [->|Hnc]; [apply N.clearbit_eq|].
+        rewrite N.clearbit_neq by auto. destruct (N.eq_dec k j) as [->|Hne]; [congruence|]. apply Hskip; [lia|exact Hdk]. }
+      assert (HD1 : Dok B r1 D) by (intros c A Hin; rewrite Hcb1; apply HD; exact Hin).
+      specialize (IH (pid_add seq 1) (j + 1) r1 out log D I1 Hseq1 Hn1 Hskip1 HD1 HS). rewrite B1 in IH.
+      destruct (recv_deliver_g n (pid_add seq 1) (r_base r) r1 out log) as [[r' out'] log'].
+      destruct IH as (I' & B' & E' & W' & nl & El & HDS).
+      assert (E1 : r_end r1 = r_end r) by (rewrite Er1; reflexivity). assert (W1 : r_wsize r1 = r_wsize r) by (rewrite Er1; reflexivity).
+      split; [exact I'|]. split; [congruence|]. split; [congruence|]. split; [congruence|].
+      exists nl. split; [exact El|]. exact HDS.
 Qed.
